@@ -125,6 +125,26 @@ func gcScenariosC04(c *Ctx) []gcScenario {
 			}
 		}
 	}
+	// the context the PUBLISHER gave its message is over (cancelled, deadline passed): the deliveries live by the Subscribe contexts
+	for _, per := range []bool{false, true} {
+		for _, blk := range []bool{false, true} {
+			scs = append(scs, gcScenario{Class: "publisher-ctx-over/" + gcCfgName(per, blk, 1), Persistent: per, Blocking: blk, Buffer: 1,
+				Subs: []gcSub{{Name: "s1", Topic: "t1", Behav: "nack1"}, {Name: "s2", Topic: "t1", Behav: "slow"}, {Name: "s3", Topic: "t1", Behav: "ack", Phase: 2}},
+				Pubs: []gcPub{{Name: "p1", Topic: "t1", N: 2, DeadCtx: true}, {Name: "p2", Topic: "t1", N: 2, Batch: true, DeadCtx: true}}})
+		}
+	}
+	// the only subscription of a topic is cancelled and the topic is subscribed again while the old subscription is being taken
+	// out: the new one is a subscription like any other -- it gets what is published afterwards
+	for _, per := range []bool{false, true} {
+		for _, blk := range []bool{false, true} {
+			for _, pt := range []string{"gochannel.unsubscribe.before_remove", "gochannel.unsubscribe.before_lock", "gochannel.sub.close.closed"} {
+				scs = append(scs, gcScenario{Class: "resubscribe-last/" + pt + "/" + gcCfgName(per, blk, 0), Persistent: per, Blocking: blk, Buffer: 0,
+					Subs: []gcSub{{Name: "s1", Topic: "t1", Behav: "ack"}, {Name: "s2", Topic: "t2", Behav: "ack", CancelAt: 1}},
+					Pubs: []gcPub{{Name: "p1", Topic: "t1", N: 2}, {Name: "p2", Topic: "t2", N: 2, Late: true}},
+					Gate: &gcGate{Point: pt, ID: "s:s2", Event: "subscribe:t2"}})
+			}
+		}
+	}
 	// subscriptions made with a context that can never be cancelled: every delivery still has a context of its own that ends with its Ack
 	for _, per := range []bool{false, true} {
 		for _, blk := range []bool{false, true} {
@@ -367,6 +387,17 @@ func gcScenariosC07(c *Ctx) []gcScenario {
 					scs = append(scs, base(&gcGate{Point: pt, ID: "s:s2", Event: ev}, true))
 				}
 			}
+			// a forwarding goroutine of the decorator is parked (about to hand a message over / about to finish) while two Close calls
+			// overlap: neither returns before every output channel is closed
+			if d > 0 {
+				for _, g := range []gcGate{{Point: "decorator.sub.before_out", ID: "m:1", Event: "closepair"},
+					{Point: "decorator.sub.before_out", ID: "m:2", Event: "closepair"}} {
+					g := g
+					sc := base(&g, false)
+					sc.Subs[0].Behav = "ack"
+					scs = append(scs, sc)
+				}
+			}
 			// a subscription made with a context that cannot be cancelled, parked inside Subscribe while Close / a second Close / a Publish arrives
 			if d == 0 {
 				for _, ev := range []string{"close", "close2", "publish:t1"} {
@@ -470,6 +501,12 @@ func gcScenariosC11(c *Ctx) []gcScenario {
 				Pubs: []gcPub{{Name: "p0", Topic: "t1", N: 2}},
 				Gate: &gcGate{Point: pt, ID: "s:s2", Event: "publish:t1"}})
 		}
+	}
+	// a long backlog replayed to a consumer that publishes (to another topic of the same Pub/Sub) before it acks each message
+	for _, buf := range []int{0, 2} {
+		scs = append(scs, gcScenario{Class: "long-backlog-republishing-consumer", Persistent: true, Buffer: buf,
+			Subs: []gcSub{{Name: "s2", Topic: "t2", Behav: "ack"}, {Name: "s1", Topic: "t1", Behav: "republish:t2", Phase: 2}},
+			Pubs: []gcPub{{Name: "p1", Topic: "t1", N: 300, Batch: true}}})
 	}
 	// some subscriptions (not the most recent ones) are cancelled while the publishers go on: the remaining ones still get each message once
 	for i := 0; i < c.Pick(6, 100); i++ {
